@@ -110,7 +110,20 @@ pub fn gen_full(r: &mut Rng, o: &FullOpts) -> PDB {
             if let Some(m) = pdb.models_mut().next() {
                 for (c, (lo, hi)) in m.chains_mut().zip(first_ids) {
                     if r.chance(1, 2) {
-                        let mut d = DatabaseReference::new(("UNP".to_string(), "P12345".to_string(), "TEST_HUMAN".to_string()), SequencePosition::new(lo, ' ', hi, ' '), SequencePosition::new(1, ' ', (hi - lo + 1).max(1), ' '));
+                        // accession / id lengths on both sides of the DBREF -> DBREF1/DBREF2 switch (8 and 12
+                        // characters), database positions on both sides of 999999, insertion codes now and then;
+                        // one draw in twelve goes beyond what even the long form has columns for (name > 6,
+                        // id > 20 characters, database insertion codes in the long form)
+                        let beyond = r.chance(1, 12);
+                        let acc = *r.pick(&["P12345", "P12345", "A0A024R1", "A0A024R1R8", "Q9Y6K9-2XYZ0"]);
+                        let id = if beyond && r.chance(1, 2) { "LONGNAME_OF_PROTEIN_X" } else { *r.pick(&["TEST_HUMAN", "TEST_HUMAN", "TESTAB_HUMAN", "TESTABC_HUMAN", "LONGNAME_OF_PROTEINX"]) };
+                        let name = if beyond && r.chance(1, 2) { "UNIPROT" } else { *r.pick(&["UNP", "UNP", "GB", "PDB", "TREMBL"]) };
+                        let dlo = if r.chance(1, 6) { *r.pick(&[99_990isize, 999_990]) + r.range(0, 20) as isize } else { 1 };
+                        let long_form = acc.len() > 8 || id.len() > 12 || dlo > 99_999 - 40;
+                        let ins = |r: &mut Rng| if r.chance(1, 6) { *r.pick(&['A', 'B', 'P']) } else { ' ' };
+                        let (i1, i2) = (ins(r), ins(r));
+                        let (i3, i4) = if long_form && !beyond { (' ', ' ') } else { (ins(r), ins(r)) };
+                        let mut d = DatabaseReference::new((name.to_string(), acc.to_string(), id.to_string()), SequencePosition::new(lo, i1, hi, i2), SequencePosition::new(dlo, i3, dlo + (hi - lo).max(0), i4));
                         if r.chance(1, 2) { d.differences.push(SequenceDifference::new(("MET".to_string(), lo, None), Some(("ALA".to_string(), 12)), "ENGINEERED MUTATION".to_string())); }
                         c.set_database_reference(d);
                     }
